@@ -1,5 +1,7 @@
 package main
 
+import "strings"
+
 // C02: what is uploaded is what is served, until overwritten or deleted.
 
 func init() {
@@ -11,7 +13,7 @@ func init() {
 		Assume: []string{"names the mux itself rewrites (empty, '.'/'..' segments, '//') are not sent; file-store worlds also exclude names that are a directory prefix of another name", "contentType is compared only when one was sent", "uploads go to existing buckets only"},
 		Run: runC02,
 	})
-	expectedProbes["C02"] = []string{"c02.three_forms", "c02.bad_md5_rejected", "c02.overwrite", "c02.delete", "c02.resumable_multi_chunk", "c02.finished_by_status_query", "c02.resend_overlapping_range", "c02.gzip_body", "c02.big_payload", "gcs.restart"}
+	expectedProbes["C02"] = []string{"c02.three_forms", "c02.bad_md5_rejected", "c02.overwrite", "c02.delete", "c02.resumable_multi_chunk", "c02.finished_by_status_query", "c02.resend_overlapping_range", "c02.folder_name_request", "c02.gzip_body", "c02.big_payload", "gcs.restart"}
 }
 
 func runC02(r *Run) {
@@ -33,18 +35,27 @@ func runC02(r *Run) {
 				}
 				return g.upload(d, b, name, gConds{})
 			case 1:
-				return gOp{Kind: "Media", Bucket: b, Name: existingName(d, m, b, g.names()), Form: d.n(3)}
+				n, f := c02ReadName(r, d, m, b, g.names(), store)
+				return gOp{Kind: "Media", Bucket: b, Name: n, Form: d.n(3), Folder: f}
 			case 2:
-				return gOp{Kind: "Get", Bucket: b, Name: existingName(d, m, b, g.names())}
+				n, f := c02ReadName(r, d, m, b, g.names(), store)
+				return gOp{Kind: "Get", Bucket: b, Name: n, Folder: f}
 			default:
-				name := existingName(d, m, b, g.names())
+				name, f := c02ReadName(r, d, m, b, g.names(), store)
 				if m.obj(b, name) != nil {
 					r.Probe("c02.delete")
 				}
-				return gOp{Kind: "Delete", Bucket: b, Name: name}
+				return gOp{Kind: "Delete", Bucket: b, Name: name, Folder: f}
 			}
 		},
 		After: func(op gOp, resp gResp, m *gModel, w *GCSWorld) bool {
+			if op.Folder {
+				// whatever the answer, the objects below the folder name are untouched
+				if k, msg := fullCompareG(w, m); k != "" {
+					r.Fail(k, "", "after %s -> HTTP %d: %s", op, resp.Status, msg)
+					return false
+				}
+			}
 			if op.Kind == "Delete" && ok2xx(resp.Status) {
 				// absent from metadata, download and (full comparison) listing
 				for _, f := range []gOp{{Kind: "Get", Bucket: op.Bucket, Name: op.Name}, {Kind: "Media", Bucket: op.Bucket, Name: op.Name, Form: 0}, {Kind: "Media", Bucket: op.Bucket, Name: op.Name, Form: 2}} {
@@ -93,3 +104,25 @@ func runC02(r *Run) {
 }
 
 func witnessC02(op gOp, kind string) string { return "" }
+
+// c02ReadName: the name of a read or delete. Besides existing and absent object names it is
+// sometimes a "folder" of existing objects (a name that was never uploaded and is a /-prefix of
+// stored names): such a request must find nothing and must not touch the objects below it.
+var c02Folders = []string{"dir", "dir/", "dir/sub", "dir/sub/"}
+
+func c02ReadName(r *Run, d *draws, m *gModel, b string, names []string, store string) (string, bool) {
+	n := existingName(d, m, b, names)
+	if d.n(8) == 0 {
+		f := c02Folders[d.n(len(c02Folders))]
+		isFolder := false
+		for _, x := range m.names(b) {
+			if strings.HasPrefix(x, strings.TrimSuffix(f, "/")+"/") {
+				r.Probe("c02.folder_name_request")
+				isFolder = true
+				break
+			}
+		}
+		return f, isFolder && store == "file"
+	}
+	return n, false
+}
